@@ -54,7 +54,7 @@ m={
    "add_only":True},
  "engines":[{"name":"sim","path":"/verif/sim, /verif/scen, /verif/cmd/check","serves_properties":sorted(checks.keys()),"kind_free_text":"deterministic simulation: testing/synctest bubble per run, seeded scheduler releasing one parked goroutine at a time (simhook yields at every lock and at marked race windows), simulated TCP with fault injection, 16 worker processes with GOMAXPROCS=1"}],
  "checks":[],
- "notes":"one driver (bin/check) for all checks; exit 0 held / 1 VIOLATION / 2 harness or build trouble. known_findings.json lists catalogued genuine defects (open) and repaired ones (fixed). Properties not yet listed under checks or not_applicable are still being built in this session.",
+ "notes":"one driver (bin/check) for all checks; exit 0 held / 1 VIOLATION / 2 harness or build trouble. known_findings.json lists catalogued genuine defects (open) and repaired ones (fixed). Every property is either claimed under checks or listed under not_applicable. The committed evidence files come from one sweep of every quick command under VERIF_SEED=1 after the last change to /repo and to the driver (DESIGN.md 12.6).",
  "not_applicable":[{"property_id":k,"reason":v} for k,v in NA.items()]
 }
 for pid in sorted(checks):
